@@ -54,6 +54,7 @@ def install(w):
         if isinstance(d.obj, UObj) or isinstance(s_.obj, UObj):
             if n % 8: raise Unsupported('odd memcpy on unbounded object')
             vals = w.load_bytes(s_, n); w.store_bytes(d, n, vals); return d
+        d = it.pin(d); s_ = it.pin(s_)
         if not (is_c(d.off) and is_c(s_.off)): raise Unsupported('memcpy at symbolic offset')
         w._check(d, n, 'store'); w._check(s_, n, 'load')
         if n % 8 == 0 and d.off % 8 == 0 and s_.off % 8 == 0:
@@ -72,6 +73,7 @@ def install(w):
         if n == 0: return d
         if not isinstance(d, Ptr) or d.obj is None: raise Violation('null-deref', 'memset through null pointer')
         if w.race: w.acc.append(('W', d.obj, d.off, n)); return d
+        d = it.pin(d)
         if not is_c(d.off): raise Unsupported('memset at symbolic offset')
         w._check(d, n, 'store')
         v &= 255
@@ -93,6 +95,12 @@ def install(w):
     H['@__cxa_throw'] = cxa_throw
     H['@__cxa_allocate_exception'] = lambda it, a: Ptr(Obj(it.concretize(a[0]) + 64, 'exc', 16, 'heap-exc'), 0)
     H['@__cxa_atexit'] = lambda it, a: 0
+    def guard_acquire(it, a):
+        # first byte of the guard object: 0 = not yet initialised -> 1 (the caller runs the initialiser), else 0
+        v = w.load_bytes(a[0], 1)[0] if a[0].obj.cells.get(a[0].off // 8) is not None else 0
+        return 0 if (is_c(v) and v & 1) else 1
+    def guard_release(it, a): w.store_bytes(a[0], 1, [1]); return None
+    H['@__cxa_guard_acquire'] = guard_acquire; H['@__cxa_guard_release'] = guard_release; H['@__cxa_guard_abort'] = lambda it, a: None
     for nm in ('@_ZNSt16invalid_argumentC1EPKc', '@_ZNSt11range_errorC1EPKc', '@_ZNSt13runtime_errorC1EPKc', '@_ZNSt11logic_errorC1EPKc', '@_ZNSt12out_of_rangeC1EPKc', '@_ZNSt12length_errorC1EPKc'):
         H[nm] = lambda it, a: None
     H['@__cxa_free_exception'] = lambda it, a: None
